@@ -38,7 +38,7 @@ def dumpObj (o : ObjFile) : String :=
       let rs := ",".intercalate ((Txt.sortBy Txt.relLt t.rel).map (fun (e : W × Key) => s!"{hex16 e.1}:{hexText e.2}"))
       let d := match t.debug with
         | none => "none"
-        | some d => s!"M[{",".intercalate (d.lineMap.iter.map (fun (p : Nat × W) => s!"{p.1}:{hex16 p.2}"))}] T{hexText d.src.src}"
+        | some d => s!"M[{",".intercalate (d.lineMap.map (fun (p : Nat × List W) => s!"{p.1}:{".".intercalate (p.2.map hex16)}"))}] T{hexText d.src.src}"
       s!"L[{ls}] R[{rs}] D[{d}]"
   s!"B[{bl}] S[{sym}]"
 
